@@ -94,4 +94,17 @@ func init() {
 			return rule == "P0" || rule == "D6" || hasAny(key, "reader/promql/", "reader/prof/transpiler", "(*StreamSelectPlanner)", "(*SimpleLabelFilterPlanner)")
 		}),
 	}
+	properties["C13"] = &Property{
+		Rules: []string{"P0", "G1", "G2", "G3", "G4"},
+		Explanation: "Decides the structural confinement clauses of C13 for every statement built with the sql_select builder under reader/ (all request-time reads are; raw SELECT text exists only for the settings table): " +
+			"(G1) every base-table read carries a lower and an upper timestamp bound derived from the window start / end (data tables), a lower `date` bound derived from the window start (index tables), or an id-set restriction, and the signal-type predicate on tables that have the `type` column; " +
+			"(G2) the start-minus-30-minutes safety-margin formatter is only ever a lower bound; (G3) every date text used as a bound and every value stored into a `date` column is UTC-normalised, so the reader's day bounds and the writer's stored days agree in every process time zone; " +
+			"(G4) the shared type predicate is `type IN (f(ctx.Type), both)` and the PromQL path selects the metrics signal, the LogQL path does not.",
+		NotCovered:  "That the bounds are tight (the `widened at most to bucket / 15 s` clause: the 15 s shortcut rounds the upper bound down, which needs execution to judge); rows restricted through an id set are confined only as far as the select producing the id set is (that select is itself an obligation of G1 when it reads a base table); ClickHouse's evaluation of the predicates; plugin-provided planners.",
+		Assumptions: []string{commonAssume, "window operands are recognised by the repository's naming convention (From/To, from/to, start/end, …NS/…Ms, DateFrom/DateTo; table printed in the rule text)", "ch-go ColDate.Append adds the time's zone offset (read from ch-go v0.65.1 proto/date.go)"},
+	}
+	properties["C11"].Rules = append(properties["C11"].Rules, "G1")
+	properties["C11"].Filter = keepIf(func(rule, key string) bool {
+		return rule == "P0" || strings.HasPrefix(key, "reader/traceql/")
+	})
 }
